@@ -93,6 +93,9 @@ type panicInfo struct {
 	Func   string   `json:"func"` // top relic function
 	Msg    string   `json:"msg"`
 	Frames []string `json:"frames"`
+	// confirm mode, oversized entries: where the most bytes were allocated
+	AllocSite   string   `json:"alloc_site,omitempty"`
+	AllocFrames []string `json:"alloc_frames,omitempty"`
 }
 
 var reArgs = regexp.MustCompile(`\([^()]*\)$`)
@@ -324,10 +327,13 @@ func (w *wctx) runCase(caseID int, s *Seed, mask uint32, m mutate.Mutation) {
 		w.curStart.Store(0)
 		el := time.Since(t0)
 		a1, h1 := w.memNow()
-		if w.confirm && a1-a0 > 64<<20 && pi == nil {
+		if w.confirm && a1-a0 > 64<<20 {
 			// name the allocation site: the heap profile always samples giant objects
 			if site, frames := biggestAllocSite(); site != "" {
-				pi = &panicInfo{Func: site, Msg: "largest allocation site", Frames: frames}
+				if pi == nil {
+					pi = &panicInfo{}
+				}
+				pi.AllocSite, pi.AllocFrames = site, frames
 			}
 		}
 		w.settle()
